@@ -300,6 +300,12 @@ def _gen_for(stream, seed):
             if ev.get("house"):
                 ev["house"] = {k: v * ratio for k, v in ev["house"].items()}
             ev["emf"] = new
+            if new >= 10**9 and len(ev["impact"]) < sc["table"]["m"] * sc["table"]["n"]:
+                # in such a coarse unit a real damage can be a number below 1e-8: one more affected industry with
+                # 5e-9 event units (thousands or millions of currency units, far above the model's rounding quantum)
+                regs_, secs_, _c = scen.labels(sc["table"])
+                free = [f"{r}|{s_}" for r in regs_ for s_ in secs_ if f"{r}|{s_}" not in ev["impact"]]
+                ev["impact"][rng.choice(free)] = 5e-9
         # purchases of an affected industry from one of its rebuilding sectors that are tiny in the table's unit
         # (non-zero, below 1e-8 in total, different across regions): the regional split of the reconstruction demand
         # must follow them whatever the unit
